@@ -55,7 +55,10 @@ impl ZmtpManualParser {
       )));
     }
     let size = raw_size as usize;
-    let total = header_len + size;
+    let total = match header_len.checked_add(size) {
+      Some(t) => t,
+      None => return Ok(None), // cannot be complete: more bytes than any slice can hold
+    };
     if src.len() < total {
       return Ok(None);
     }
@@ -99,7 +102,13 @@ impl ZmtpManualParser {
         raw_size, self.max_msg_size
       )));
     }
-    Ok(Some(header_len + raw_size as usize))
+    match header_len.checked_add(raw_size as usize) {
+      Some(total) => Ok(Some(total)),
+      None => Err(ZmqError::ProtocolViolation(format!(
+        "frame size {} overflows the addressable length",
+        raw_size
+      ))),
+    }
   }
 
   /// Parse one ZMTP frame from a `Bytes` chunk without allocating.
@@ -128,7 +137,10 @@ impl ZmtpManualParser {
       )));
     }
     let size = raw_size as usize;
-    let total = header_len + size;
+    let total = match header_len.checked_add(size) {
+      Some(t) => t,
+      None => return Ok(None), // cannot be complete: more bytes than any slice can hold
+    };
     if src.len() < total {
       return Ok(None);
     }
